@@ -461,6 +461,15 @@ func vfGenRound(rt *rapid.T) *vfRound {
 	}
 	// most rounds concentrate on few names so that same-name mutations overlap
 	names := vfNames[:rapid.SampledFrom([]int{1, 2, 3, 1, 2}).Draw(rt, "nNames")]
+	// per round every name has a usual kind (the seeded one if seeded), so that most updates meet
+	// the stored kind and succeed; the other kind is still drawn now and then
+	usual := map[string]string{}
+	for _, name := range vfNames {
+		usual[name] = rapid.SampledFrom(vfKinds).Draw(rt, "usualKind")
+	}
+	for _, sd := range r.Seed {
+		usual[sd.Name] = sd.Kind
+	}
 	nc := rapid.IntRange(2, 8).Draw(rt, "nClients")
 	for c := 0; c < nc; c++ {
 		var script []vfReq
@@ -468,13 +477,20 @@ func vfGenRound(rt *rapid.T) *vfRound {
 		for i := 0; i < nr; i++ {
 			rq := vfReq{
 				Member: rapid.IntRange(0, 1).Draw(rt, "member"),
-				Op: rapid.SampledFrom([]string{"create", "create", "update", "update", "update", "delete", "delete", "get", "list",
-					"update-badname"}).Draw(rt, "op"),
+				Op: rapid.SampledFrom([]string{"update", "update", "update", "update", "create", "create", "delete", "get", "list",
+					"update-badname", "delete", "create"}).Draw(rt, "op"),
 				Name: rapid.SampledFrom(names).Draw(rt, "name"),
 			}
 			switch rq.Op {
 			case "create", "update", "update-badname":
-				rq.Kind = rapid.SampledFrom(vfKinds).Draw(rt, "kind")
+				rq.Kind = usual[rq.Name]
+				if rapid.IntRange(0, 4).Draw(rt, "otherKind") == 0 {
+					if rq.Kind == vfKinds[0] {
+						rq.Kind = vfKinds[1]
+					} else {
+						rq.Kind = vfKinds[0]
+					}
+				}
 				rq.Note = note()
 			}
 			script = append(script, rq)
@@ -487,11 +503,13 @@ func vfGenRound(rt *rapid.T) *vfRound {
 
 // vfStored reads the stored objects and version directly through a cluster member.
 func vfStored(c cluster.Cluster) (map[string]vfObj, map[string]string, int64, error) {
-	kvs, err := c.GetPrefix(c.Layout().ConfigObjectPrefix())
+	// the version first: a version bump that lags behind its object write is then seen as
+	// (old version, new objects)
+	v, err := c.Get(c.Layout().ConfigVersion())
 	if err != nil {
 		return nil, nil, 0, err
 	}
-	v, err := c.Get(c.Layout().ConfigVersion())
+	kvs, err := c.GetPrefix(c.Layout().ConfigObjectPrefix())
 	if err != nil {
 		return nil, nil, 0, err
 	}
@@ -511,6 +529,12 @@ func vfStored(c cluster.Cluster) (map[string]vfObj, map[string]string, int64, er
 		m[name] = o
 	}
 	return m, kvs, ver, nil
+}
+
+// vfObsSample is what the observer read (version, then objects) right after taking the lock.
+type vfObsSample struct {
+	ver   int64
+	model map[string]vfObj
 }
 
 func vfRawEq(a, b map[string]string) bool {
@@ -572,6 +596,7 @@ func TestVerifC18API(t *testing.T) {
 			obsViol  string
 			obsErr   string
 			obsHolds int
+			obsSeen  []vfObsSample
 		)
 		stop := make(chan struct{})
 		var owg sync.WaitGroup
@@ -590,7 +615,7 @@ func TestVerifC18API(t *testing.T) {
 					mu.Unlock()
 					return
 				}
-				_, raw1, ver1, err1 := vfStored(bed.observer)
+				mod1, raw1, ver1, err1 := vfStored(bed.observer)
 				if round.HoldMs > 0 {
 					time.Sleep(time.Duration(round.HoldMs) * time.Millisecond)
 				}
@@ -598,6 +623,9 @@ func TestVerifC18API(t *testing.T) {
 				uerr := obsMutex.Unlock()
 				mu.Lock()
 				obsHolds++
+				if err1 == nil {
+					obsSeen = append(obsSeen, vfObsSample{ver: ver1, model: mod1})
+				}
 				switch {
 				case err1 != nil || err2 != nil || uerr != nil:
 					obsErr = fmt.Sprintf("observer: %v %v %v", err1, err2, uerr)
@@ -776,6 +804,15 @@ func TestVerifC18API(t *testing.T) {
 		if !vfModelEq(stored, cur) {
 			vf.Violation(rt, "stored-objects-differ-from-replay-in-version-order", "replay gives %s, the store holds %s\n%s", vfModelStr(cur), vfModelStr(stored), history())
 			return
+		}
+		// whenever the observer held the lock, nobody was inside a mutation: what it read must be
+		// exactly the state of the version it read
+		for _, o := range obsSeen {
+			if o.ver < v0 || o.ver > v0+k || !vfModelEq(o.model, states[o.ver-v0]) {
+				vf.Violation(rt, "lock-holder-saw-version-and-objects-out-of-step", "while holding %s the observer member read version %d together with objects %s; states by version: %s\n%s",
+					lockKey, o.ver, vfModelStr(o.model), vfStatesStr(states, v0), history())
+				return
+			}
 		}
 		// the listing of both members agrees
 		for mi, m := range bed.members {
